@@ -65,19 +65,19 @@ def _install_logging():
     def random_bits(self, sftype, n, signed=False):
         res = orig_rb(self, sftype, n, signed)
         if _LOG is not None and sys._getframe(1).f_code.co_name == 'trunc':
-            _LOG[self.pid].append(('bits', res))
+            _LOG[self.pid].append(('bits', res, id(sys._getframe(1))))
         return res
 
     def _randoms(self, sftype, n, bound=None):
         res = orig_rs(self, sftype, n, bound)
         if _LOG is not None and sys._getframe(1).f_code.co_name == 'trunc':
-            _LOG[self.pid].append(('div', res))
+            _LOG[self.pid].append(('div', res, id(sys._getframe(1))))
         return res
 
     def output(self, x, *args, **kwargs):
         res = orig_out(self, x, *args, **kwargs)
         if _LOG is not None and sys._getframe(1).f_code.co_name == 'trunc':
-            _LOG[self.pid].append(('open', res))
+            _LOG[self.pid].append(('open', res, id(sys._getframe(1))))
         return res
 
     R.random_bits, R._randoms, R.output = random_bits, _randoms, output
@@ -111,32 +111,53 @@ def lagrange0(p, t):
 
 
 def recover_calls(log, t, p):
-    """log: pid -> list of entries of ONE instruction; returns list of trunc calls
-    {'bits': [...], 'div': [...], 'open': [...]} or None if the logs cannot be aligned."""
+    """log: pid -> list of entries (kind, obj, frame id of the trunc call) of ONE instruction; returns the list of
+    trunc calls {'bits': [...], 'div': [...], 'open': [...]} in the order party 0 started them, or None if the
+    logs cannot be aligned.  Concurrent calls are matched across parties by their (public) opened values."""
     lam = lagrange0(p, t)
     per = []
     for pid in range(t + 1):
-        ent = [(k, _resolve(o)) for k, o in log[pid]]
-        if any(v is None for _, v in ent):
+        groups, order, cur = {}, [], {}
+        for ent in log[pid]:
+            kind, obj, fid = ent
+            v = _resolve(obj)
+            if v is None:
+                return None
+            gen = cur.get(fid, 0)
+            if (fid, gen) in groups and kind in groups[(fid, gen)]:
+                if len(groups[(fid, gen)]) != 3:
+                    return None
+                gen += 1          # frame id reused by a later call
+                cur[fid] = gen
+            if (fid, gen) not in groups:
+                groups[(fid, gen)] = {}
+                order.append((fid, gen))
+            groups[(fid, gen)][kind] = v
+        gl = [groups[k] for k in order]
+        if any(set(g) != {'bits', 'div', 'open'} for g in gl):
             return None
-        per.append(ent)
+        per.append(gl)
     n = len(per[0])
-    if any(len(e) != n for e in per) or n % 3:
+    if any(len(g) != n for g in per):
+        return None
+    keys0 = [tuple(g['open']) for g in per[0]]
+    if len(set(keys0)) != n:
         return None
     calls = []
-    for c in range(0, n, 3):
-        kinds = [per[0][c + i][0] for i in range(3)]
-        if kinds != ['bits', 'div', 'open']:
-            return None
-        call = {}
-        for i, kind in enumerate(kinds):
-            cols = [per[pid][c + i][1] for pid in range(t + 1)]
-            if any(per[pid][c + i][0] != kind for pid in range(t + 1)) or len({len(x) for x in cols}) != 1:
+    for g0 in per[0]:
+        key = tuple(g0['open'])
+        gs = [g0]
+        for pid in range(1, t + 1):
+            match = [g for g in per[pid] if tuple(g['open']) == key]
+            if len(match) != 1:
                 return None
-            if kind == 'open':
-                call[kind] = cols[0]
-            else:
-                call[kind] = [sum(lam[pid] * cols[pid][j] for pid in range(t + 1)) % p for j in range(len(cols[0]))]
+            gs.append(match[0])
+        call = {'open': g0['open']}
+        for kind in ('bits', 'div'):
+            cols = [g[kind] for g in gs]
+            if len({len(x) for x in cols}) != 1:
+                return None
+            call[kind] = [sum(lam[pid] * cols[pid][j] for pid in range(t + 1)) % p for j in range(len(cols[0]))]
         calls.append(call)
     return calls
 
